@@ -1,4 +1,7 @@
 import Generated.Bits
 import Generated.Categories
+import Generated.Constants
 import Generated.KnownWords
+import Generated.Statics
 import Generated.Tables
+import Generated.Wiring
